@@ -145,7 +145,7 @@ static long long init_pairs[HC_MAXW]; static size_t n_init = 0;   /* pairs given
 static void emit(struct Slot* objs, const char* op, int o, int k, int v, long long n, int src, const char* what, const char* exc, long long r) {
   ev_begin(op);
   ev_int("o", o); ev_int("k", k); ev_int("v", v); ev_int("n", n); ev_int("src", src);
-  ev_str("what", what); ev_str("exc", exc); ev_int("r", r);
+  ev_str("what", what); ev_str("exc", exc); ev_str("msg", hc_msg); ev_int("r", r);
   ev_int("own", (ktk == VT_PROBE || vtk == VT_PROBE) ? 1 : 0);
   ev_arr_begin("init");
   for (size_t i = 0; i + 1 < n_init; i += 2) { if (i) ev_s(","); ev_s("["); ev_i(init_pairs[i]); ev_s(","); ev_i(init_pairs[i + 1]); ev_s("]"); }
@@ -188,6 +188,7 @@ int main(int argc, char** argv) {
     }
     if (hc_is(0, "reset")) {
       for (int i = 1; i < MAXO; i++) drop(&objs[i]);
+      if (cur_exec > 0) { ev_begin("end"); ev_ledger(); ev_int("line", cur_line); ev_end(); led_abandon(); }   /* closes the previous execution */
       cur_exec++;
       ev_begin("reset"); ev_ledger(); ev_int("line", cur_line); ev_end();
       continue;
